@@ -23,3 +23,12 @@ Inductive component : Set :=
 | CompArgs        (* node.args.args                         vs argspec.args *)
 | CompArgsPos     (* node.args.posonlyargs + node.args.args vs argspec.args *)
 | CompVararg | CompKwarg | CompKwonly.
+
+(* what parser.parse does to the text before handing it to ast.parse (translated from the argument of the
+   ast.parse call).  _parse_lambda parses the WHOLE FILE through parse() and compares the line numbers of the
+   tree with co_firstlineno, which counts the lines of the file. *)
+Inductive text_norm : Set :=
+| NormNone        (* ast.parse(src) *)
+| NormRStrip      (* ast.parse(src.rstrip()) -- no line of the file moves *)
+| NormLStrip      (* ast.parse(src.lstrip()) -- leading whitespace-only lines are dropped *)
+| NormStrip.      (* ast.parse(src.strip()) *)
